@@ -8,6 +8,8 @@ use crate::hasher::{HashMode, SimHasher};
 use crate::life::{build_life, LKind, Life};
 use crate::rng::Sm;
 use crate::s1_filters::{gen_kind, shrink_vec};
+#[allow(unused_imports)]
+use crate::anyf::FKind as _FKindForMatch;
 use serde::{Deserialize, Serialize};
 use serde_json::{json, Value};
 
@@ -223,6 +225,52 @@ impl Scenario for S7 {
                 if now != oc {
                     viol.push(v(format!("{}/clone/not-independent", name), step, format!("mutating / clearing the original changed the clone: {}", first_diff(&oc, &now))));
                     return;
+                }
+            }
+            // clone_from onto an instance of a *different* configuration of the same structure type:
+            // afterwards the target is a copy of the source in every respect
+            {
+                let which = match &case.kind {
+                    LKind::Filter(FKind::Bloom { .. }) => 0,
+                    LKind::Filter(FKind::Cuckoo { .. }) => 1,
+                    LKind::Filter(FKind::Quotient { .. }) => 2,
+                    LKind::Filter(FKind::Set) => 0,
+                    LKind::Cms { .. } => 3,
+                    LKind::Hll { .. } => 4,
+                    LKind::Digest { .. } => 5,
+                    LKind::Reservoir { .. } => 6,
+                    LKind::Lossy { .. } => 7,
+                    LKind::Heap { .. } => 8,
+                };
+                let mut g2 = Sm::new(case.rng_seed ^ 0xc10e);
+                let mut other = gen_lkind(&mut g2, which, case.prefix.len() + 2 * case.cont.len());
+                if let (LKind::Digest { scale, .. }, LKind::Digest { scale: s2, .. }) = (&case.kind, &mut other) {
+                    *s2 = *scale;
+                }
+                if let (LKind::Cms { ctr, .. }, LKind::Cms { ctr: c2, .. }) = (&case.kind, &mut other) {
+                    *c2 = *ctr;
+                }
+                let mut dst = build_life(&other, case.hasher, case.rng_seed ^ 0xd57, &[], 0, case.alphabet);
+                for &(x, y) in case.prefix.iter().take(12) {
+                    dst.apply(x, y);
+                }
+                if dst.clone_from_dyn(a.as_ref()) {
+                    stats.probe("clone_from_checked");
+                    let (oa, od) = (a.observe(keys), dst.observe(keys));
+                    if oa != od {
+                        viol.push(v(format!("{}/clone_from/differs-from-source", name), step, format!("after dst.clone_from(&src) with dst of configuration {:?}: {}", other, first_diff(&oa, &od))));
+                        return;
+                    }
+                    let mut a2 = a.fork();
+                    for (i, &(x, y)) in case.cont.iter().take(40).enumerate() {
+                        let (r1, _) = dst.apply(x, y);
+                        let (r2, _) = a2.apply(x, y);
+                        let (o1, o2) = (dst.observe(keys), a2.observe(keys));
+                        if r1 != r2 || o1 != o2 {
+                            viol.push(v(format!("{}/clone_from/diverges", name), step, format!("operation {} after clone_from: result {} vs {} on a clone() of the same source; {}", i + 1, r1, r2, first_diff(&o1, &o2))));
+                            return;
+                        }
+                    }
                 }
             }
             // and the other direction: mutate a clone, the original must not move
